@@ -239,7 +239,7 @@ func checkC01(w *World, r *Report) {
 	checkBatchLoop(w, r, pr)
 	r.Rule("C01.R5", "an accepted message is processed without further stimulus (the C03 wake-up protocol) and from a ring with sound length accounting (C14.R2/R3): necessary for 'delivered exactly once'", 8)
 	importRules(w, r, checkC03, "C03", "C01.R5", nil)
-	importRules(w, r, checkC14, "C14", "C01.R5", func(o *Obligation) bool { return o.Rule == "C14.R2" || o.Rule == "C14.R3" })
+	importRules(w, r, checkC14, "C14", "C01.R5", func(o *Obligation) bool { return o.Rule == "C14.R2" || o.Rule == "C14.R3" || o.Rule == "C14.R4" })
 }
 
 // loopExitEdges: edges on which the worker loop leaves without a batch (stopped / empty pop).
@@ -1250,6 +1250,10 @@ func checkC12(w *World, r *Report) {
 		r.Check(ok, "C12.R2", fname(es)+":control-not-forwarded", "subscription control messages are not forwarded to subscribers", w.fnPos(es), "eventSub/eventUnsub leak to subscribers")
 	}
 
+	// R5: per-subscriber order is the order of the subscriber's inbox ring
+	r.Rule("C12.R5", "events reach a subscriber through a ring whose element transfers respect the ring origin (C14.R2-R4) and a batch loop that visits elements in order (C01.R4)", 8)
+	importRules(w, r, checkC14, "C14", "C12.R5", func(o *Obligation) bool { return o.Rule == "C14.R2" || o.Rule == "C14.R3" || o.Rule == "C14.R4" })
+	importRules(w, r, checkC01, "C01", "C12.R5", func(o *Obligation) bool { return o.Rule == "C01.R4" })
 	// R4 lifecycle events
 	pr := w.findProcRoles()
 	if !pr.fail(r, "C12.R4") {
